@@ -12,7 +12,14 @@ Counters == {BN(0), BN(1), BN(255), BN(256), BN(16909060), BNMaxU32, <<1, 0, 0, 
 
 \* a COSE public key as the authenticator would embed it (77 bytes)
 Pk77 == Enc(CoseTree(CoseOfKind("p256")))
-PkShapes == {<< >>, Pk77, Pattern(101, 200)}
+\* the public key is opaque to the library: an exact COSE key, nothing, noise -- and bytes that START
+\* like a COSE key (trailing bytes, an extra parameter, a second item), or are other well-formed CBOR
+PkTree == CoseTree(CoseOfKind("p256"))
+PkShapes == {<< >>, Pk77, Pattern(101, 200),
+             Pk77 \o <<0>>, Pk77 \o Pattern(107, 9), Pk77 \o Pk77,
+             Enc(CMap(PkTree.m \o << <<CInt(-70000), CU(1)>> >>)),
+             Enc(CoseTree(CoseOfKind("ed25519"))), Enc(CoseTree(CoseOfKind("ed25519"))) \o <<246>>,
+             <<160>>, <<160, 160>>, Enc(CArr(<<CU(1), CU(2)>>)) \o <<255>>}
 Aaguids == {<< >>, Pattern(102, 16), Pattern(102, 17)}
 
 Acd(aaguid, idLen, pk) == [aaguid |-> aaguid, idLen |-> idLen, idSeed |-> 103, pk |-> pk]
